@@ -1,6 +1,7 @@
 #!/bin/sh
 # tools/selftest.sh [prop ...]: every recorded mutant must make its property's check exit 1 (must-fail corpus);
 # then the unchanged tree must exit 0. /repo is restored after each mutant.
+if ! git -C /repo diff --quiet; then echo "REFUSING: /repo has uncommitted changes to tracked files (commit the contract files first)"; exit 9; fi
 cd /verif
 props="$@"; [ -z "$props" ] && props=$(ls selftest/mutants)
 fail=0
